@@ -31,10 +31,6 @@ type Opts struct {
 	Off map[string]bool
 }
 
-func defaultOpts() Opts {
-	return Opts{Off: map[string]bool{}}
-}
-
 func (o Opts) on(f string) bool { return !o.Off[f] }
 
 type Var struct {
@@ -352,6 +348,9 @@ func (g *gen) places() []place {
 	nilVar := false
 	var rec func(e *E, t *Type, assign, addr bool, d int)
 	rec = func(e *E, t *Type, assign, addr bool, d int) {
+		if t.under().K == KFunc && !g.opts.on("func-var-reassign") {
+			assign = false // finding escaping-func-variable-aliased
+		}
 		ps = append(ps, place{e, t, assign, addr, nilVar})
 		if d <= 0 {
 			return
@@ -400,9 +399,24 @@ func (g *gen) places() []place {
 			}
 		}
 	}
-	for _, v := range g.vars() {
-		nilVar = v.Nil
-		rec(tx(v.Name), v.T, !v.RO, !v.RO, 2)
+	for si, sc := range g.scopes {
+		for _, v := range sc {
+			nilVar = v.Nil
+			n := len(ps)
+			rec(tx(v.Name), v.T, !v.RO, !v.RO, 2)
+			if si == 0 && !g.opts.on("global-nested-write") {
+				// finding global-composite-nested-write: an element or a field below the first level of
+				// a package-level variable is read only (no assignment, no address)
+				for i := n + 1; i < len(ps); i++ {
+					if k := v.T.under().K; k == KStruct || k == KArray {
+						if s := ps[i].e.String(); strings.Count(s, ".")+strings.Count(s, "[") > strings.Count(v.Name, ".")+1 || strings.Contains(s, "[") {
+							ps[i].assign = false
+						}
+						ps[i].addr = false
+					}
+				}
+			}
+		}
 	}
 	return ps
 }
@@ -824,7 +838,7 @@ func (g *gen) value(t *Type, d int) *E {
 			return g.hole(t, tx("make(", g.ts(t), ", ", g.rnd(4), ", ", 4+g.rnd(3), ")"))
 		case 1:
 			if t.K != KNamed {
-				return tx(g.ts(t), "(nil)")
+				return tx("(", g.ts(t), ")(nil)")
 			}
 		case 2:
 			if a := g.read(t); a != nil {
@@ -909,13 +923,13 @@ func (g *gen) value(t *Type, d int) *E {
 		vt := g.anyType()
 		g.noteAny(vt)
 		if g.chance(10) {
-			return tx(g.ts(t), "(nil)")
+			return tx("(", g.ts(t), ")(nil)")
 		}
 		return tx(g.ts(t), "(", g.expr(vt, d-1), ")")
 	case KError:
 		switch g.rnd(4) {
 		case 0:
-			return tx(g.ts(t), "(nil)")
+			return tx("(", g.ts(t), ")(nil)")
 		case 1:
 			return tx("fmt.Errorf(\"e%d\", ", g.expr(tInt, d-1), ")")
 		}
